@@ -29,11 +29,11 @@ def gen_scenario(rng, engine):
     cm = E.gen_class(rng, engine)
     n_req = len([f for f in cm['fields'] if f['dflt'] is None])
     form = rng.choice(LINK_FORMS)
-    # Never a path field on both sides of the late annotation: the path tables of a class are filled "only while empty" (both
-    # engines), so a set-up interrupted after the first path field leaves them partly filled for good and the path fields declared
-    # after the late annotation are lost (default value / MissingFields on load, KeyError on dump) - recorded, not repaired:
-    # findings/path-tables-partly-filled-after-failed-first-use.py
-    paths = [i for i, f in enumerate(cm['fields']) if f['form'] in PATH_FORMS]
+    # Path fields may sit on both sides of the late annotation: the path tables of a class used to be filled "only while empty"
+    # (both engines), so a set-up interrupted after the first path field left them partly filled for good and the path fields
+    # declared after the late annotation were lost - repaired by 4bfffcd (findings/path-tables-partly-filled-after-failed-first-use.py
+    # keeps the directed reproduction); the shape is part of the stream again.
+    paths = []
 
     def positions(form):
         lo, hi = (n_req, len(cm['fields'])) if form.startswith('optional') else (0, n_req)
